@@ -8,6 +8,7 @@
   command `print_spec` on the real library's parsed output).
 -/
 import QExPy.Lemmas.Printing
+import QExPy.Lemmas.PrintText
 
 namespace QExPy
 open Printing
@@ -119,6 +120,49 @@ theorem C09_model_sig_figs (cfg : PCfg) (v e : ℚ) (hn : 1 ≤ cfg.n) (hx : piv
         else ((fmt cfg v e).mantV : ℚ) * p10 ((fmt cfg v e).pow10 - (fmt cfg v e).decV))
         = (m : ℚ) * p10 pl :=
   C09_spec_sig_figs v e cfg (fmt cfg v e) hn hx (C09_model_ok cfg v e hn)
+
+/-- **C09 (text round trip).** Reading a rendered output back (`parsePrinted`, the parser the
+    driver applies to the implementation's raw text) returns the structured form it was rendered
+    from — mantissas, decimals, power of ten, style flags — for every well-formed `Printed`
+    (a bare `0` uncertainty stands for mantissa 0 with no decimals; the non-scientific form has
+    power 0).  Only the `errBare` flag is normalised: `"0"` reads as a bare zero. -/
+theorem C09_render_parse (p : Printed) (h : WFPrinted p) :
+    parsePrinted (render p) = some { p with errBare := decide (p.mantE = 0 ∧ p.decE = 0) } := by
+  unfold parsePrinted render
+  rw [String.toList_ofList]
+  exact parseChars_render p h
+
+/-- the model's outputs are well-formed -/
+theorem C09_model_wf (cfg : PCfg) (v e : ℚ) : WFPrinted (fmt cfg v e) := by
+  have hz : ∀ l, WFPrinted (zeroForm l) := by intro l; simp [WFPrinted, zeroForm]
+  have hdef : ∀ l, WFPrinted (defaultPrinter cfg v e l) := by
+    intro l
+    unfold defaultPrinter
+    split
+    · exact hz l
+    · by_cases he : e = 0 <;> simp [WFPrinted, he]
+  have hsci : ∀ l, WFPrinted (sciPrinter cfg v e l) := by
+    intro l
+    unfold sciPrinter
+    by_cases h0 : v = 0 ∧ e = 0
+    · simp only [if_pos h0]; exact hz l
+    · simp only [if_neg h0]
+      generalize (if v ≠ 0 then ilog10 v else ilog10 e) = ord
+      by_cases ho : ord = Gen.sciFallbackOrder
+      · simp only [if_pos ho]; exact hdef l
+      · simp only [if_neg ho]
+        by_cases he : e = 0 <;> simp [WFPrinted, he]
+  unfold fmt
+  cases cfg.style
+  · exact hdef false
+  · exact hsci false
+  · exact hsci true
+
+/-- **C09 (end to end on the model).** The TEXT the model prints, read back as numbers by
+    `parsePrinted`, satisfies `PrintedOK` — for every value, uncertainty, style, mode, `n ≥ 1`. -/
+theorem C09_model_text_ok (cfg : PCfg) (v e : ℚ) (hn : 1 ≤ cfg.n) :
+    ∃ p, parsePrinted (render (fmt cfg v e)) = some p ∧ PrintedOK v e cfg p :=
+  ⟨_, C09_render_parse _ (C09_model_wf cfg v e), C09_model_ok cfg v e hn⟩
 
 /-- non-vacuity: the hypothesis of `C09_model_ok` is met by every configuration of the domain
     (n = 1 … 6) -/
